@@ -155,6 +155,7 @@ func runC02(p *P, r *R) {
 		return constructHas(o, "free-list header", "slot header", "(bufferHeader)", "stride", "initial tail", "countBufferListMemSize", "every size class", "advances to the next list")
 	})
 
+	walkerRecyclesHead(p, r, "R02.10")
 	// R02.9 a slot that re-enters the free chain carries no stale link (shared with C01 R01.5): the chain must end at the tail
 	borrow(p, r, "C01", runC01, map[string]string{"R01.5": "R02.9", "R01.8": "R02.9"}, nil)
 
@@ -312,4 +313,50 @@ func linkReadBeforeRecycle(p *P, r *R, rule string) {
 	}
 	r.count(rule, "recycle sites in chain walkers", nWalk, 2)
 
+}
+
+// walkerRecyclesHead (R02.10 / R09.10): a chain walker that is handed a shared-memory chain gives it back: from the
+// entry, every path on which the head is non-nil and from shared memory passes a recycleBuffer call before returning.
+// An extra condition in front of the walk (a flag of the head, a state test) silently drops whole chains.
+func walkerRecyclesHead(p *P, r *R, rule string) {
+	recyc := p.mCall("(*bufferManager).recycleBuffer")
+	n := 0
+	for _, f := range p.fnList {
+		if len(findInstrs(f, recyc)) == 0 || len(findInstrs(f, p.mCall("(bufferHeader).nextBufferOffset"))) == 0 {
+			continue
+		}
+		var head *ssa.Parameter
+		for _, prm := range f.Params {
+			if namedName(prm.Type()) == "bufferSlice" {
+				head = prm
+			}
+		}
+		if head == nil {
+			continue
+		}
+		n++
+		isHead := func(v ssa.Value) bool { return v == ssa.Value(head) }
+		isHeadShm := func(v ssa.Value) bool {
+			fa, ok := loadOfField(v)
+			return ok && fieldKey(fa) == "bufferSlice.isFromShm" && fa.X == ssa.Value(head)
+		}
+		res := p.mustPass(f, []Point{{f.Blocks[0], -1}}, func(in ssa.Instruction) bool { return p.evMust(in, recyc, 1) },
+			func(b *ssa.BasicBlock, i int) bool {
+				ifi := blockIf(b)
+				if ifi == nil {
+					return true
+				}
+				if relOn(ifi.Cond, i == 0, isHead, isNilConst) == "==" {
+					return false // nothing handed in
+				}
+				cond, neg := stripNot(ifi.Cond)
+				if isHeadShm(cond) && (i == 0) == neg {
+					return false // not shared memory: nothing to give back
+				}
+				return true
+			}, nil)
+		r.ob(rule, p.fname(f)+": a non-nil shared-memory chain handed to the walker is recycled on every path", p.pos(f.Pos()), res.OK, true,
+			"a further condition in front of the walk drops the whole chain: %s", p.pathString(res))
+	}
+	r.count(rule, "chain walkers with a head parameter", n, 1)
 }
